@@ -181,6 +181,21 @@ func BuildMulti(g string, s []ro.Observable[any]) (ro.Observable[any], error) {
 		return tupleAny(ro.GroupByI(func(v any, _ int64) int { return v.(int) % 2 })(s[0])), nil
 	case "WindowWhen":
 		return tupleAny(ro.WindowWhen[any](s[1])(s[0])), nil
+	case "SequenceEqual":
+		// MultiDef!SeqKeyEq: values are compared by their digit; the second value of source 2 never matches
+		a := ro.Map(func(v any) int { return asIntM(v) % 10 })(s[0])
+		b := ro.Map(func(v any) int {
+			if j := asIntM(v) % 10; j != 1 {
+				return j
+			}
+			return 9
+		})(s[1])
+		return ro.Map(func(eq bool) any {
+			if eq {
+				return 1
+			}
+			return 0
+		})(ro.SequenceEqual(b)(a)), nil
 	}
 	return nil, fmt.Errorf("multi catalogue: no constructor for %q", g)
 }
@@ -469,4 +484,16 @@ func emitMulti(cs *ctlSub, s, j int, n Notif) {
 	case "C":
 		cs.dest.CompleteWithContext(context.WithValue(cs.subCtx, rec.KeyItem, -s))
 	}
+}
+
+func asIntM(v any) int {
+	switch x := v.(type) {
+	case int:
+		return x
+	case int64:
+		return int(x)
+	case float64:
+		return int(x)
+	}
+	panic(fmt.Sprintf("verif: not an integer: %T", v))
 }
